@@ -1,0 +1,104 @@
+//go:build verif
+
+package lq
+
+// Contracts for govc (see /verif/DESIGN.md §8 C15). Comment-only file: it adds no code.
+
+// ---------------------------------------------------------------------------------------
+// C15 (b)/(d): producerReceiver turns every outlink item into a queue row and batches the rows.
+// [record] is checked where the batch is handed over on the size-triggered path (the only
+// operation after the row is built; `append` of struct elements is not modelled by the engine,
+// so the rows inside batch.URLs cannot be described).
+// Ghost counters: rows received / rows handed to the dispatcher / backing array handed last.
+// [flushed-on-stop] is EXPECTED TO BE REFUTED (known divergence, replay c15_lqReceiverStop): on
+// ctx.Done() the receiver returns without handing over its partial batch, so outlinks accepted
+// from the pipeline during the last <= 5 s before a stop never reach the queue. The same code
+// shape is in hq.producerReceiver and in both finisherReceivers (finish acks dropped).
+//@ ghost var prRecv int
+//@ ghost var prHanded int
+//@ ghost var prLastSent mathint
+//@ func producerReceiver
+//@   property C15
+//@   replay c15_lqReceiverStop:flushed-on-stop
+//@   requires globalLQ != nil
+//@   requires prRecv == 0 && prHanded == 0 && prLastSent == 0
+//@   after selrecv(produceCh)#1: prRecv = prRecv + 1
+//@   after selsend(batchCh)#1: prHanded = prHanded + len(batch.URLs); prLastSent = arrof(batch.URLs)
+//@   after selsend(batchCh)#2: prHanded = prHanded + len(batch.URLs); prLastSent = arrof(batch.URLs)
+//@   assert Debug(logger)#2: [record] URL.Value == item.url.Raw && URL.Via == item.seedVia && URL.Hops == int64(item.url.Hops) && URL.ID == "" // C15: handed to the queue with its text unchanged, its parent page as 'via' and its hop count
+//@   loop for modifies prRecv, prHanded, prLastSent
+//@   loop for invariant [conserved] prRecv == prHanded + len(batch.URLs) && batch != nil // C15: every outlink the pipeline discovers is handed to the queue
+//@   loop for invariant [size-trigger] 0 <= len(batch.URLs) && len(batch.URLs) < batchSize && batchSize >= 1
+//@   loop for invariant [unshared] arrof(batch.URLs) != prLastSent && (prLastSent == 0 || allocated(prLastSent)) // the batch being filled never shares its backing array with the batch handed over last
+//@   ensures [flushed-on-stop] prRecv == prHanded // C15: every outlink the pipeline discovers is handed to the queue
+
+// ---------------------------------------------------------------------------------------
+// C15 (b): the database client. The sqlc_model query methods and the database/sql transaction
+// calls are assumed (ghost bookkeeping only, results unconstrained): see
+// sqlc_model/zz_verif_contracts.go and /verif/contracts/lib/c15_sql.spec.
+
+// Add: every row of the batch is offered to the database with its fields unchanged; a nil
+// result means every row was offered and the transaction was committed.
+//@ func (*LQClient).Add
+//@   property C15
+//@   requires globalLQ != nil && globalLQ.client != nil && globalLQ.client.dbWrite != nil && globalLQ.client.dbWriteSqlc != nil
+//@   modifies dbAddN, dbAddID, dbAddValue, dbAddVia, dbAddHops, sqlCommits
+//@   let adds0 = sqlc_model.nAdds()
+//@   let commits0 = sql.nCommits()
+//@   loop range invariant [offered] -1 <= rangeindex && rangeindex < len(urls) && sqlc_model.nAdds() == adds0 + rangeindex + 1 && sql.nCommits() == commits0
+//@   loop range invariant [record] rangeindex >= 0 ==> sqlc_model.lastAdd(urls[rangeindex].Value, urls[rangeindex].Via, urls[rangeindex].Hops) && (urls[rangeindex].ID != "" ==> sqlc_model.lastAddID() == urls[rangeindex].ID) // C15: handed to the queue (local database) with its text unchanged, its parent page as 'via' and its hop count
+//@   ensures [all-offered] result == nil ==> sqlc_model.nAdds() == adds0 + len(urls) // C15: every outlink the pipeline discovers is handed to the queue
+//@   ensures [committed] (result == nil ==> sql.nCommits() == commits0 + 1) && (result != nil ==> sql.nCommits() == commits0) // nil result = committed, error = nothing committed
+
+// Delete: every finished seed of the batch is deleted by its id; nil result = all of them, committed.
+//@ func (*LQClient).Delete
+//@   property C15
+//@   requires globalLQ != nil && globalLQ.client != nil && globalLQ.client.dbWrite != nil && globalLQ.client.dbWriteSqlc != nil
+//@   modifies dbDelN, dbDelID, sqlCommits
+//@   let dels0 = sqlc_model.nDeletes()
+//@   let commits0 = sql.nCommits()
+//@   loop range invariant [offered] -1 <= rangeindex && rangeindex < len(urls) && sqlc_model.nDeletes() == dels0 + rangeindex + 1 && sql.nCommits() == commits0
+//@   loop range invariant [by-id] rangeindex >= 0 ==> sqlc_model.lastDeleteID() == urls[rangeindex].ID // C15: every finished seed is acknowledged to the queue by its id
+//@   ensures [all-acked] (result == nil ==> sqlc_model.nDeletes() == dels0 + len(urls)) && sqlc_model.nDeletes() >= dels0 // C15: every finished seed is acknowledged to the queue
+//@   ensures [committed] (result == nil ==> sql.nCommits() == commits0 + 1) && (result != nil ==> sql.nCommits() == commits0) // nil result = committed, error = nothing committed
+
+// Get: the rows handed out are exactly the rows the database returned for the limit asked,
+// each claimed by its id, in one committed transaction.
+//@ func (*LQClient).Get
+//@   property C15
+//@   requires globalLQ != nil && globalLQ.client != nil && globalLQ.client.dbWrite != nil && globalLQ.client.dbWriteSqlc != nil
+//@   modifies dbClaimN, dbClaimID, dbFreshLimit, dbFreshArr, dbFreshLen, sqlCommits
+//@   let claims0 = sqlc_model.nClaims()
+//@   let commits0 = sql.nCommits()
+//@   loop range invariant [claimed] -1 <= rangeindex && rangeindex < len(freshUrls) && sqlc_model.nClaims() == claims0 + rangeindex + 1 && sql.nCommits() == commits0 && sqlc_model.lastFresh(freshUrls) && sqlc_model.lastFreshLimit() == int64(limit)
+//@   loop range invariant [by-id] rangeindex >= 0 ==> sqlc_model.lastClaimID() == freshUrls[rangeindex].ID
+//@   ensures [rows] result1 == nil ==> sqlc_model.lastFresh(result0) && sqlc_model.lastFreshLimit() == int64(limit) // C15: its hop count, which survives the round trip back into a seed (rows come back as stored)
+//@   ensures [all-claimed] result1 == nil ==> sqlc_model.nClaims() == claims0 + len(result0) && sql.nCommits() == commits0 + 1
+//@   ensures [error] result1 != nil ==> len(result0) == 0
+
+// ---------------------------------------------------------------------------------------
+// C15 (b): finisherReceiver - the acknowledgement row of a finished seed carries the seed's id.
+// (No batching invariants: item.Traverse(closure) is a higher-order call whose frame the
+// engine cannot express; everything is havocked after it.)
+//@ func finisherReceiver
+//@   property C15
+//@   requires globalLQ != nil
+//@   assert Traverse(item)#1: [ack-id] URL.ID == item.id // C15: every finished seed is acknowledged to the queue by its id
+
+// C15 (c): finisherSender retries Delete until it succeeds or the context is cancelled; every
+// attempt is a Delete of the whole batch (Delete's contract above: all ids, committed).
+//@ func finisherSender
+//@   property C15
+//@   requires globalLQ != nil && globalLQ.client != nil && globalLQ.client.dbWrite != nil && globalLQ.client.dbWriteSqlc != nil && batch != nil
+//@   modifies dbDelN, dbDelID, sqlCommits
+//@   let urls0 = batch.URLs
+//@   let dels0 = sqlc_model.nDeletes()
+//@   let commits0 = sql.nCommits()
+//@   loop for invariant [batch-kept] batch == old(batch) && samearray(batch.URLs, urls0) && len(batch.URLs) == len(urls0) && sql.nCommits() == commits0 && sqlc_model.nDeletes() >= dels0
+//@   ensures [delivered] closed(done(ctx)) || (sql.nCommits() == commits0 + 1 && sqlc_model.nDeletes() >= dels0 + len(urls0)) // C15: every finished seed is acknowledged to the queue by its id (retried until the database accepted it)
+
+// The dispatcher's sender goroutine: the batch taken from batchCh is the batch given to the sender.
+//@ func finisherDispatcher$1
+//@   property C15
+//@   requires globalLQ != nil && globalLQ.client != nil && globalLQ.client.dbWrite != nil && globalLQ.client.dbWriteSqlc != nil && batch != nil
+//@   ensures [forwarded] closed(done(*ctx)) || (sql.nCommits() == old(sql.nCommits()) + 1 && sqlc_model.nDeletes() >= old(sqlc_model.nDeletes()) + old(len(batch.URLs))) // C15: every finished seed is acknowledged to the queue
